@@ -479,6 +479,8 @@ func runClientCase(ctx *Ctx, m *common.Model, c KCase, idx int) *common.Violatio
 		return runSeqWrapCase(ctx, c, idx)
 	case "spoof":
 		return runSpoofCase(ctx, c, idx)
+	case "spoofoverrun":
+		return runSpoofOverrunCase(ctx, c, idx)
 	case "concsend":
 		return runConcSendCase(ctx, c, idx)
 	case "concecho":
